@@ -424,7 +424,21 @@ def _run(ctx: Ctx, replay: Optional[str], t0: float) -> int:
         print(f"replay verdict: corr={'ok' if v.corr_ok else 'MISMATCH'} judge={'ok' if v.judge_ok else 'FAIL'} {v.notes}")
         return 0 if (v.corr_ok and v.judge_ok) else 1
 
-    cases: List[Case] = harness.generate(ctx)
+    try:
+        cases: List[Case] = harness.generate(ctx)
+    except Exception:  # noqa: BLE001 - the code under test made the harness itself fail
+        import traceback
+
+        tb = traceback.format_exc()
+        path = write_replay(prop, "obligation", {
+            "property": prop, "kind": "broken-obligation", "seed": ctx.seed, "tier": ctx.tier,
+            "broken_obligations": broken + [{"obligation": f"harness:{prop}", "detail": tb[-4000:]}],
+            "note": "an exception escaped the harness while it was driving the real code; the correspondence "
+                    "could not be established (on the unchanged tree this never happens)",
+        })
+        print(tb[-1500:])
+        print(f"VIOLATION property={prop} replay={path} no-failing-input-found")
+        return 1
     verdicts = run_driver(prop, cases, ctx.work)
     judge_fail = [c for c in cases if not verdicts[c.cid].judge_ok]
     corr_fail = [c for c in cases if verdicts[c.cid].judge_ok and not verdicts[c.cid].corr_ok]
